@@ -16,6 +16,7 @@ Cls == CASE last.op = "new" -> (IF SignUniform(last.d) THEN "uniform" ELSE "mixe
 CaseOf ==
   CASE last.op = "new" -> [op |-> "Duration.new", cls |-> Cls, args |-> [dur |-> last.d], out |-> last.out]
     [] last.op = "fromPartial" -> [op |-> "Duration.fromPartial", cls |-> Cls, args |-> [p |-> last.p], out |-> last.out]
+    [] last.op = "timeInRange" -> [op |-> "Duration.timeInRange", cls |-> IF last.out.val THEN "balanced" ELSE "unbalanced", args |-> [recv |-> last.a], out |-> last.out]
     [] last.op \in {"negated", "abs", "sign"} -> [op |-> "Duration." \o last.op, cls |-> Cls, args |-> [recv |-> last.a], out |-> last.out]
     [] last.op \in {"add", "subtract", "compare"} -> [op |-> "Duration." \o last.op, cls |-> Cls, args |-> [recv |-> last.a, other |-> last.b], out |-> last.out]
     [] last.op = "round" -> [op |-> "Duration.round", cls |-> Cls, args |-> [recv |-> last.a, st |-> [largest |-> last.o.lg, smallest |-> last.o.sm, inc |-> last.o.inc, mode |-> last.o.mode]], out |-> last.out]
